@@ -25,7 +25,7 @@ IsEvent(e) == l <= TLen /\ Trace[l].ev = e /\ l' = l + 1
 Ev      == Trace[l - 1]                      \* the line consumed last
 IsMsg   == l > 1 /\ Ev.ev = "Msg"
 IsMut   == l > 1 /\ Ev.ev = "Mut"
-Emitted == IsMsg /\ ~Ev.sererr /\ Ev.panic = ""
+Emitted == IsMsg /\ ~Ev.sererr /\ Ev.panic = "" /\ ~Ev.rawerr
 Modelled == Ev.shape.k # "ex"
 
 (* option combination id of the harness: ext + 2*as2 + 4*ap4 + 8*apmp + 16*mrt *)
@@ -40,10 +40,12 @@ TReset == /\ IsEvent("Reset")
 TMsg == /\ IsEvent("Msg")
         /\ LET e == Trace[l] IN
            /\ Assert(e.builderr = "", <<"harness could not build the shape", e.builderr, e.shape>>)
-           /\ Assert(e.sererr \/ e.panic # "" \/ e.shape.k = "ex" \/ e.proj = e.shape,
+           /\ Assert(e.sererr \/ e.panic # "" \/ e.shape.k = "ex" \/ e.raw \/ e.proj = e.shape,
                      <<"harness builder/projection out of step with the abstract shape", e.shape, e.proj>>)
-           /\ rd' = IF e.sererr \/ e.panic # "" THEN NoRd ELSE ReadMsg(e.bytes, e.opts)
-           /\ NoteIf(~e.sererr /\ e.panic = "", <<e.shape, e.opts>>)
+           /\ Assert(~e.raw \/ (e.rawbytes = Encode(e.shape, e.opts) /\ WellFormed(e.rawbytes, e.opts)),
+                     <<"raw octets are not the writer model's well-formed image of the shape", e.shape>>)
+           /\ rd' = IF e.sererr \/ e.panic # "" \/ e.rawerr THEN NoRd ELSE ReadMsg(e.bytes, e.opts)
+           /\ NoteIf(~e.sererr /\ e.panic = "" /\ ~e.rawerr, <<e.shape, e.opts, e.raw>>)
         /\ ov' = NoOv
 
 TMut == /\ IsEvent("Mut")
@@ -102,9 +104,22 @@ Readable == Emitted /\ rd.hdr.ok /\ rd.body.ok
 C04_LenAgrees    == Readable => LensAgree(Ev.lens)
 C04_LenAgreesDec == (Readable /\ ~Ev.parseerr) => LensAgree(Ev.relens)
 
-(* shape generated = shape the reader finds in the octets = shape after re-parse *)
+(* received octets: the writer model's (well-formed, see the Assert in TMsg) image of a shape is
+   accepted by the real parser *)
+C04_RawAccepted == (IsMsg /\ Ev.raw /\ Ev.panic = "") => ~Ev.rawerr
+
+(* the Extended Length bit is on the wire exactly where the value needs it or the shape asks for it *)
+C04_ExtFlag ==
+  (Readable /\ rd.body.t = "update" /\ (Modelled => Len(rd.body.attrs.els) = Len(Ev.shape.attrs))) =>
+    \A i \in DOMAIN rd.body.attrs.els :
+       LET e == rd.body.attrs.els[i] IN
+       AttrExt(Ev.bytes, e) <=> (AttrVLen(Ev.bytes, e) > 255 \/ (Modelled /\ Ev.shape.attrs[i].x = 1))
+
+(* shape generated = shape the reader finds in the octets = shape after re-parse; for received octets
+   also: the shape parsed from them = the shape they were written from *)
 C04_ShapeRoundTrip ==
   Emitted => /\ ~Ev.parseerr
+             /\ Ev.raw => Ev.proj = Ev.shape
              /\ Ev.reshape = Ev.proj
              /\ Modelled => (Readable /\ ReadWire(Ev.bytes, rd) = ExpWire(Ev.shape, Ev.opts))
 
